@@ -186,13 +186,12 @@ def has_subterm(t, pred):
 
 # ------------------------------------------------------------------ byte predicates
 
-def valueset(body, domain=range(256), param=None, max_paths=5000):
+def valueset(body, domain=range(256), param=None, max_paths=5000, callee=None):
     """Set of values of the (last) integer/char parameter for which a loop-free predicate
     returns true, by interval/value-set propagation along every path: each fork on the
     parameter (or on a comparison of it with a constant) splits the set."""
     if param is None:
         param = body.argc  # closures: (self, x); fns: (x)
-    paths = sym.walk(body, max_paths=max_paths)
     true_set = set()
     dom = set(domain)
 
@@ -219,6 +218,11 @@ def valueset(body, domain=range(256), param=None, max_paths=5000):
         if t[0] == "un" and t[1] == "Not":
             a = eval_bool(t[2], v)
             return None if a is None else (not a)
+        if t[0] == "call" and callee is not None and len(t[3]) == 1:
+            a = eval_int(t[3][0], v)
+            f = callee(t[2])
+            if a is not None and f is not None:
+                return f(a)
         return None
 
     def eval_int(t, v):
@@ -232,46 +236,26 @@ def valueset(body, domain=range(256), param=None, max_paths=5000):
             return eval_int(t[1], v)
         return None
 
-    for p in paths:
-        live = set(dom)
-        ok = True
-        for e in p:
-            if e[0] == "switch":
-                term, val, listed = e[2], e[3], e[4]
-                if is_param(term):
-                    if val == "else":
-                        live -= set(listed)
-                    else:
-                        live &= {val}
-                else:
-                    keep = set()
-                    for v in live:
-                        r = eval_bool(term, v)
-                        if r is None:
-                            ri = eval_int(term, v)
-                            if ri is None:
-                                raise ValueError("valueset: fork on non-closed term %s in %s" % (sym.show(term), body.path))
-                            r = ri
-                        rv = int(r)
-                        if val == "else":
-                            if rv not in listed:
-                                keep.add(v)
-                        elif rv == val:
-                            keep.add(v)
-                    live = keep
-            elif e[0] in ("unreachable", "loop", "diverge"):
-                ok = False
-        if not ok or not live:
+    for v in sorted(dom):
+        def dec(term, listed, v=v):
+            r = eval_bool(term, v)
+            if r is None:
+                r = eval_int(term, v)
+            if r is None:
+                raise ValueError("valueset: fork on non-closed term %s in %s" % (sym.show(term), body.path))
+            return int(r)
+        ps = sym.Walker(body, max_paths=4, decide=dec).run()
+        if len(ps) != 1:
+            raise ValueError("valueset: %d paths for one value in %s" % (len(ps), body.path))
+        p = ps[0]
+        if p[-1][0] != "ret":
             continue
         r = ret_of(p)
-        if r is None:
-            continue
-        for v in live:
-            rb = eval_bool(r, v)
-            if rb is None:
-                raise ValueError("valueset: non-closed return %s in %s" % (sym.show(r), body.path))
-            if rb:
-                true_set.add(v)
+        rb = eval_bool(r, v)
+        if rb is None:
+            raise ValueError("valueset: non-closed return %s in %s" % (sym.show(r), body.path))
+        if rb:
+            true_set.add(v)
     return true_set
 
 
@@ -363,3 +347,61 @@ def fn_sites(body, name_suffixes):
 
 def shortfn(p):
     return sym.short(p)
+
+
+def body_constants(body):
+    """All integer / char constants mentioned in switch tables and comparisons of a body."""
+    out = set()
+
+    def visit(o):
+        if isinstance(o, dict):
+            if "k" in o and isinstance(o["k"], dict) and "v" in o["k"]:
+                t = sym.const_term(o["k"])
+                if t[0] == "c":
+                    if isinstance(t[2], int) and not isinstance(t[2], bool):
+                        out.add(t[2])
+                    elif t[1] == "char":
+                        try:
+                            out.add(char_value(t[2]))
+                        except ValueError:
+                            pass
+            for v in o.values():
+                visit(v)
+        elif isinstance(o, list):
+            for v in o:
+                visit(v)
+
+    for blk in body.blocks:
+        visit(blk["stmts"])
+        t = blk["term"]
+        visit(t)
+        if t["k"] == "switch":
+            for v, _ in t["vals"]:
+                out.add(v)
+    return out
+
+
+def valueset_intervals(body, maxv=0x10FFFF, callee=None, extra_consts=()):
+    """Exact accepted set of a predicate over 0..=maxv as a sorted list of inclusive intervals:
+    the domain is partitioned at every constant the body mentions, one representative per cell."""
+    ks = set(body_constants(body)) | set(extra_consts)
+    reps = {0, maxv}
+    for k in ks:
+        for d in (-1, 0, 1):
+            if 0 <= k + d <= maxv:
+                reps.add(k + d)
+    reps = sorted(reps)
+    acc = valueset(body, domain=reps, callee=callee)
+    out = []
+    for i, r in enumerate(reps):
+        hi = reps[i + 1] - 1 if i + 1 < len(reps) else maxv
+        if r in acc:
+            if out and out[-1][1] == r - 1:
+                out[-1][1] = hi
+            else:
+                out.append([r, hi])
+    return [tuple(x) for x in out]
+
+
+def in_intervals(iv, v):
+    return any(a <= v <= b for a, b in iv)
